@@ -89,6 +89,13 @@ func (monC06) TaskEnd(s *Sim, t *Task) {
 		if len(v.Nodes[node].Annotations) > 0 || p.Labels[edsv1.ExtendedDaemonSetSettingNameLabelKey] != "" {
 			continue // resource overrides may make the pod outdated: not judged here
 		}
+		replaced := false
+		for _, c := range v.PodDeletes {
+			replaced = replaced || (c.NS == p.Namespace && c.Name == p.Name)
+		}
+		if replaced {
+			continue // the sync found the pod outdated (a setting that applies by now) and replaces it: not evaluated
+		}
 		pods = append(pods, p)
 	}
 	if len(pods) == 0 {
